@@ -37,6 +37,9 @@
 
 using namespace vd;
 
+// makes the digests of the two observations differ whenever a second run in the same VM gave another result
+static long long g_same_vm_diff = 0;
+
 namespace
 {
     const char* sqf_kind(sqf::parser::sqf::tokenizer::etoken t)
@@ -273,6 +276,17 @@ namespace
             o.nerr = count_err(v);
             o.ntok = res.has_value() ? (long long)res->size() : 0;
             o.digest = (res.has_value() ? *res : std::string("<none>")) + "|" + diag_digest(v);
+            // the same text once more in the SAME VM: what one run defines or undefines must not reach the next
+            // (not for texts whose expansion is stateful by design: the counter, evaluated code)
+            if (text.find("__COUNTER") == std::string::npos && text.find("__EVAL") == std::string::npos && text.find("__EXEC") == std::string::npos)
+            {
+                auto before = count_err(v);
+                auto res2 = v.rt->parser_preprocessor().preprocess(*v.rt, text, pi);
+                if (res2.has_value() != res.has_value() || (res.has_value() && *res2 != *res) || count_err(v) - before != o.nerr)
+                {
+                    o.digest += "|second run in the same VM differs #" + std::to_string(++g_same_vm_diff);
+                }
+            }
             return o;
         }
         o.fin = "machinery";
